@@ -12,6 +12,8 @@ for tc in ET.parse(out).getroot().iter("testcase"):
     if not any(ch.tag in ("failure", "error", "skipped") for ch in tc):
         passed.add("%s::%s" % (tc.get("classname"), tc.get("name")))
 os.unlink(out)
+# the suite itself rewrites summary.txt in the checkout: put it back
+subprocess.run(["git", "-C", repo, "checkout", "--", "summary.txt"], capture_output=True)
 missing = [t for t in base["stable_pass"] if t not in passed]
 print("passed now: %d; stable_pass: %d; stable_pass no longer passing: %d" % (len(passed), len(base["stable_pass"]), len(missing)))
 for t in missing:
